@@ -59,7 +59,7 @@ Example C13_phase_sum_witness :
   mint_run 5 P m 1 = Some (1234567, {| m_infl := PREC / 10; m_step := 1; m_prov := 1234567 * PREC + 89; m_trunc := 90 |}).
 Proof. vm_compute. split; reflexivity. Qed.
 
-From Sge Require Import Gen.kernels Proofs.GenKernels.
+From Sge Require Import Gen.kernels Proofs.GenMintK.
 (* the provision of a phase in the model IS Minter.NextPhaseProvisions, generated from x/mint/types/minter.go on every run *)
 Theorem C13_kernels_generated : forall infl step prov trunc supply exclude ph,
   K_Minter_NextPhaseProvisions {| G_Minter_Inflation := infl; G_Minter_PhaseStep := step; G_Minter_PhaseProvisions := prov; G_Minter_TruncatedTokens := trunc |}
